@@ -56,7 +56,9 @@ pub open spec fn g_next(s: GAbs, t: GAbs, r: Option<int>) -> bool {
     }
 }
 pub open spec fn g_apply(s: GAbs, t: GAbs, start: int, len: int) -> bool {
-    start >= s.top && len > 0 && t.avail == s.avail.union(ids(start, start + len)) && t.top == start + len && t.last == s.last
+    len > 0 && t.last == s.last && (if start < s.top { t == s } else {
+        t.top == start + len && (forall|x: int| #[trigger] t.avail.contains(x) ==> s.avail.contains(x) || (start <= x < start + len))
+    })
 }
 /// ids never go backwards and are never issued twice: every id handed out is larger than the previous one
 pub proof fn lemma_group_monotone(s: GAbs, t: GAbs, r: Option<int>)
